@@ -406,7 +406,8 @@ def _replay_job(args):
 
 
 def write_evidence(mod, tier, seed, stats, wall, exhaustive, plan_desc, findings):
-  os.makedirs(os.path.join(VERIF_DIR, "evidence"), exist_ok=True)
+  evdir = os.environ.get("VERIF_EVIDENCE_DIR") or os.path.join(VERIF_DIR, "evidence")
+  os.makedirs(evdir, exist_ok=True)
   samples = list(stats.first_samples)
   for d, s in stats.low_samples:
     if s not in samples:
@@ -434,7 +435,7 @@ def write_evidence(mod, tier, seed, stats, wall, exhaustive, plan_desc, findings
     "technique": getattr(mod, "TECHNIQUE", ""),
     "repo_root": REPO_ROOT,
   }
-  path = os.path.join(VERIF_DIR, "evidence", "%s.json" % mod.ID)
+  path = os.path.join(evdir, "%s.json" % mod.ID)
   tmp = path + ".tmp"
   with open(tmp, "w") as f:
     json.dump(ev, f, indent=1, sort_keys=True)
@@ -536,7 +537,7 @@ def main(argv=None):
   for e in findings.open:
     print("KNOWN-FINDING: property=%s %s [id=%s hits=%d]" % (mod.ID, e["what"], e["id"], total.known_hits.get(e["id"], 0)))
   print("%s tier=%s seed=%d evaluations=%d distinct_nontrivial=%d violations=%d wall=%.1fs evidence=%s" % (
-      mod.ID, tier, seed, total.evaluations, len(total.nontrivial), len(total.violations), wall, os.path.relpath(evpath, VERIF_DIR)))
+      mod.ID, tier, seed, total.evaluations, len(total.nontrivial), len(total.violations), wall, evpath))
   for n in total.budget_hit:
     print("NOTE budget: " + n)
   if total.harness_errors:
